@@ -643,7 +643,7 @@ func (fr *Frame) enterLoop(h *ssa.BasicBlock, li *loopInfoT, cur *State) *State 
 		if w.all {
 			nv := Fresh(name+"$loop", srt)
 			hst.set(name, nv)
-			if ex.hasFrame || (strings.HasPrefix(name, "G$") && ex.frameProps != nil) {
+			if ex.hasFrame || (strictGhost[name] && ex.frameProps != nil) {
 				lc.framed = append(lc.framed, name)
 				ex.assume(Implies(reachB, ex.frameFormula(name, nv)))
 			}
